@@ -502,6 +502,28 @@ flow main
   await_flow_by_name "bot say"
   wait indefinitely
 """),
+    (["core.co", "timing.co", "avatars.co"], """flow main
+  activate managing bot postures
+  activate tracking bot talking state
+  bot gesture "wave"
+  wait 2.0
+  bot say "hi"
+  when user was silent 5.0
+    bot say "hello?"
+  or when user said something
+    bot say "ok"
+  match Never()
+"""),
+    (["core.co", "timing.co", "avatars.co"], """flow main
+  activate handling bot talking interruption
+  activate tracking visual choice selection state
+  start scene show short information "info" as $s
+  bot say "one two three"
+  user said "next"
+  send $s.Stop()
+  bot posture "idle"
+  repeating timer "t1" 1.0
+"""),
 ]
 
 
